@@ -30,6 +30,10 @@ def container(kind, arrs, dtype):
         return SignatureList(arrs, ks, dtype=np.dtype(dtype))
     if kind == 'plain':
         return list(arrs)
+    if kind == 'plain-own':
+        # a plain list in which every array has ITS OWN smallest integer type (narrow ones first, wider ones later)
+        own = lambda a: np.asarray(a, dtype=('u2' if (len(a) == 0 or int(max(a)) < 65536) else 'u4' if int(max(a)) < 2 ** 32 else 'u8'))
+        return [own(a) for a in arrs]
     if kind == 'array32':
         base = SignatureArray(arrs, ks, dtype=np.dtype(dtype))
         return SignatureArray.from_arrays(base.values, base.bounds.astype(np.int32), ks)         # bounds not in the platform integer type
@@ -162,13 +166,13 @@ class Matrix(Fam):
 
     def inputs(self, ctx):
         reps = 2 if ctx.tier == 'quick' else 10
-        self.rule = ('pools of 6-7 signatures (empty, singleton, duplicates) x reference container {SignatureArray (intp and int32 bounds), SignatureList, plain list, '
+        self.rule = ('pools of 6-7 signatures (empty, singleton, duplicates) x reference container {SignatureArray (intp and int32 bounds), SignatureList, plain list, plain list of arrays in their own (mixed) integer types, '
                      'HDF5 file, contiguous slice view, zero-copy window with bounds[0] != 0} x dtype pairs (same width, signed/unsigned, query wider than references with values '
                      'congruent mod 2^16) x chunk size {None,1,2,3,n,n+2} x index selections (None, permutations, repeats, non-monotone runs, '
                      'empty, random) x caller-supplied out (none, NaN-filled, strided view) x threads {1,3,16} x repeated runs; '
                      'non-trivial = >= 2 columns over non-identical signatures')
         rng = ctx.rng
-        conts = ['array', 'list', 'plain', 'hdf5', 'view', 'array32', 'window']
+        conts = ['array', 'list', 'plain', 'hdf5', 'view', 'array32', 'window', 'plain-own']
         dpairs = [('u2', 'u2'), ('u8', 'u8'), ('i8', 'u4'), ('u2', 'i4')]
         for pname, pool in POOLS.items():
             pairs = dpairs if pname == 'basic' else [('u8', 'u8'), ('u4', 'u4'), ('u8', 'u4'), ('i8', 'u4'), ('u4', 'u2'), ('u8', 'u2')]
